@@ -35,11 +35,12 @@ Fixpoint inline_comment_from (quote : option ascii) (i : nat) (x : str) : option
   end.
 Definition inline_comment_start (line : str) : option nat := inline_comment_from None 0 line.
 
-(* _insert_continuation(line): " &" after the statement text, before the inline comment *)
-Definition insert_continuation (line : str) : str :=
-  match inline_comment_start line with
+(* _insert_continuation(line, skip): " &" after the statement text, before the inline comment;
+   the first [skip] characters are not looked at *)
+Definition insert_continuation (line : str) (skip : nat) : str :=
+  match inline_comment_start (from skip line) with
   | None => rstrip line ++ s " &"
-  | Some k => rstrip (firstn k line) ++ s " & " ++ rstrip (skipn k line)
+  | Some k => let k := k + skip in rstrip (firstn k line) ++ s " & " ++ rstrip (skipn k line)
   end.
 
 Record fline := {
@@ -47,6 +48,7 @@ Record fline := {
   f_regular : bool;      (* is_regular *)
   f_cont : bool;         (* isContinuation *)
   f_long : bool;         (* isLong *)
+  f_omp : bool;          (* isOMP *)
   f_excess : str         (* excess_line *)
 }.
 
@@ -80,13 +82,16 @@ Definition analyse (length_limit : bool) (line0 : str) : fline :=
     else if negb (str_isspace label) then label ++ code
     else code in
   let conv := if isLong && regular then ljust 72 (rstrip conv) ++ excess else conv in
-  {| f_conv := conv; f_regular := regular; f_cont := isCont; f_long := isLong; f_excess := excess |}.
+  {| f_conv := conv; f_regular := regular; f_cont := isCont; f_long := isLong; f_omp := isOMP;
+     f_excess := excess |}.
 
 Definition continue_line (f : fline) : fline :=
+  let skip := if f_omp f then 5 else 0 in   (* len("!$omp") *)
   let conv :=
-    if negb (f_long f && f_regular f) then insert_continuation (f_conv f) ++ [nl]
-    else ljust 72 (insert_continuation (firstn 72 (f_conv f))) ++ f_excess f in
-  {| f_conv := conv; f_regular := f_regular f; f_cont := f_cont f; f_long := f_long f; f_excess := f_excess f |}.
+    if negb (f_long f && f_regular f) then insert_continuation (f_conv f) skip ++ [nl]
+    else ljust 72 (insert_continuation (firstn 72 (f_conv f)) skip) ++ f_excess f in
+  {| f_conv := conv; f_regular := f_regular f; f_cont := f_cont f; f_long := f_long f; f_omp := f_omp f;
+     f_excess := f_excess f |}.
 
 (* convertToFree: the line stack holds the last regular line and the irregular lines after it *)
 Fixpoint convert_go (ll : bool) (stack : list fline) (lines : list str) : list str :=
